@@ -87,7 +87,7 @@ Definition sess_of (o : op) : option sess :=
   match o with
   | OArm s _ _ | OCsr s _ | ORoot s _ | OAddNoc s _ | OUpdNoc s _ | OAclW s _ _
   | ONetAdd s _ _ | ONetDel s _ | OComplete s _ | OCompleteCut s _ | ORevoke s => Some s
-  | OTimeout | ORestart | ONewPase => None
+  | OTimeout | ORestart | ONewPase | ONewCase _ => None
   end.
 
 (** ** 3. Observable configuration and its comparisons *)
